@@ -4,6 +4,7 @@ import (
 	"archive/zip"
 	"bytes"
 	"encoding/xml"
+	"fmt"
 	"strings"
 
 	"golang.org/x/net/html"
@@ -88,6 +89,12 @@ func parseNavXHTML(content []byte) (*TableOfContents, error) {
 	if err != nil {
 		return nil, err
 	}
+	// The walks below (findNav, findTitle, findOL, parseOLEntries, extractText)
+	// recurse once per level: a toc entry holding four million nested <i>, 18 KB
+	// compressed, ended the process with a stack overflow in extractText.
+	if treeDeeperThan(doc, maxTreeDepth) {
+		return nil, fmt.Errorf("nav document nested deeper than %d levels", maxTreeDepth)
+	}
 
 	toc := &TableOfContents{}
 
@@ -152,6 +159,35 @@ func parseNavXHTML(content []byte) (*TableOfContents, error) {
 	}
 
 	return toc, nil
+}
+
+// maxTreeDepth is the deepest element nesting the nav parser accepts (the limit encoding/xml
+// applies to XML). x/net/html builds its tree without recursion and without a
+// depth limit, while the functions here walk it by recursion.
+const maxTreeDepth = 10000
+
+// treeDeeperThan reports whether the tree under root is nested deeper than limit. It
+// walks the tree iteratively.
+func treeDeeperThan(root *html.Node, limit int) bool {
+	depth := 0
+	for n := root; n != nil; {
+		if n.FirstChild != nil {
+			n = n.FirstChild
+			if depth++; depth > limit {
+				return true
+			}
+			continue
+		}
+		for n != root && n.NextSibling == nil {
+			n = n.Parent
+			depth--
+		}
+		if n == root {
+			return false
+		}
+		n = n.NextSibling
+	}
+	return false
 }
 
 // parseOLEntries parses TOC entries from an <ol> element.
